@@ -65,10 +65,10 @@ func NewParser(l *Lexer) Parser {
 		Minus:         {PrecAddition, unary, binary},
 		Multiply:      {PrecMultiplication, nil, binary},
 		Divide:        {PrecMultiplication, regex, binary},
-		PlusEqual:     {PrecAssign, nil, binary},
-		MinusEqual:    {PrecAssign, nil, binary},
-		MultiplyEqual: {PrecAssign, nil, binary},
-		DivideEqual:   {PrecAssign, nil, binary},
+		PlusEqual:     {PrecAssign, nil, assign},
+		MinusEqual:    {PrecAssign, nil, assign},
+		MultiplyEqual: {PrecAssign, nil, assign},
+		DivideEqual:   {PrecAssign, nil, assign},
 		AmpAmp:        {PrecLogical, nil, binary},
 		PipePipe:      {PrecLogical, nil, binary},
 		Match:         {PrecNone, match, nil},
@@ -723,6 +723,12 @@ func unary(p *Parser) (Expr, error) {
 		return nil, err
 	}
 
+	if opToken.Tag == PlusPlus || opToken.Tag == MinusMinus {
+		if !isAssignable(expr) {
+			return nil, p.error(expr.Token().Pos, fmt.Sprintf("invalid operand for %s", opToken.Tag))
+		}
+	}
+
 	return &ExprUnary{
 		Expr:    expr,
 		OpToken: opToken,
@@ -731,6 +737,10 @@ func unary(p *Parser) (Expr, error) {
 }
 
 func postfix(p *Parser, left Expr) (Expr, error) {
+	if !isAssignable(left) {
+		return nil, p.error(left.Token().Pos, fmt.Sprintf("invalid operand for %s", p.current.Tag))
+	}
+
 	_, err := p.advance()
 	if err != nil {
 		return nil, err
@@ -751,31 +761,18 @@ func binary(p *Parser, left Expr) (Expr, error) {
 	}
 	opToken := *p.previous
 
-	prec := p.rule(opToken.Tag).prec
-	switch opToken.Tag {
-	case PlusEqual, MinusEqual, MultiplyEqual, DivideEqual:
-		// compound assignments are right-associative, like =
-	default:
-		// everything else is left-associative, so the right operand must bind
-		// tighter than the operator itself
-		prec++
-	}
-
-	expr, err := p.expressionWithPrec(prec)
+	// binary operators are left-associative, so the right operand must bind
+	// tighter than the operator itself
+	expr, err := p.expressionWithPrec(p.rule(opToken.Tag).prec + 1)
 	if err != nil {
 		return nil, err
 	}
 
-	switch opToken.Tag {
-	case PlusEqual, MinusEqual, MultiplyEqual, DivideEqual:
-		return p.rewriteCompundAssingment(left, expr, opToken)
-	default:
-		return &ExprBinary{
-			Left:    left,
-			Right:   expr,
-			OpToken: opToken,
-		}, nil
-	}
+	return &ExprBinary{
+		Left:    left,
+		Right:   expr,
+		OpToken: opToken,
+	}, nil
 }
 
 func is(p *Parser, left Expr) (Expr, error) {
@@ -835,14 +832,22 @@ func (p *Parser) rewriteCompundAssingment(left Expr, right Expr, opToken Token) 
 	}, nil
 }
 
-func assign(p *Parser, left Expr) (Expr, error) {
-	switch e := left.(type) {
-	case *ExprLiteral, *ExprArray, *ExprObject:
-		return nil, p.error(left.Token().Pos, "invalid assignment")
+// only variables and member/index expressions can be assigned to
+func isAssignable(expr Expr) bool {
+	switch e := expr.(type) {
+	case *ExprIdentifier:
+		return true
 	case *ExprBinary:
-		if e.OpToken.Tag != Dot && e.OpToken.Tag != LSquare {
-			return nil, p.error(left.Token().Pos, "invalid assignment")
-		}
+		return e.OpToken.Tag == Dot || e.OpToken.Tag == LSquare
+	default:
+		return false
+	}
+}
+
+// = and the compound assignments += -= *= /=, all right-associative
+func assign(p *Parser, left Expr) (Expr, error) {
+	if !isAssignable(left) {
+		return nil, p.error(left.Token().Pos, "invalid assignment")
 	}
 
 	_, err := p.advance()
